@@ -658,7 +658,7 @@ def module_history(ctx, case):
 
 
 MODULE_INJECT_FRAMES = ('cycle', '_cleanup', '_new_state', '_update_attributes', 'is_active', 'state_transition', 'cycle_machine',
-                        'read_status', 'get_status', 'final_status', 'on_cleanup')
+                        'read_status', 'get_status', 'final_status', 'on_cleanup', 'start_machine', 'stop_machine', 'start', 'stop')
 
 
 def module_injected(ctx, case, inj, position):
@@ -670,8 +670,10 @@ def module_injected(ctx, case, inj, position):
     statuses = []
     m = make_module(case, statuses)
     sm = m._state_machine
-    state = {'n': 0, 'done': position is None, 'at': None}
+    state = {'n': 0, 'done': position is None, 'at': None, 'in_req': False}
     raised = []
+    not_busy = []
+    rlock = getattr(m, '_request_lock', None)
 
     def do(o):
         if o == 'start':
@@ -685,7 +687,10 @@ def module_injected(ctx, case, inj, position):
         if frame.f_code.co_filename not in files:
             return None
         if event == 'line' and frame.f_code.co_name in MODULE_INJECT_FRAMES:
-            if not state['done'] and state['n'] >= position and not sm._lock.locked():
+            # inj == 'cycle': the poll thread cycles between two lines of a request (there is one cycling thread only)
+            if (inj == 'cycle') != state['in_req']:
+                return tracer
+            if not state['done'] and state['n'] >= position and not sm._lock.locked() and not (rlock is not None and rlock.locked()):
                 state['done'] = True
                 state['at'] = (frame.f_code.co_name, frame.f_lineno)
                 sys.settrace(None)
@@ -699,11 +704,17 @@ def module_injected(ctx, case, inj, position):
     sys.settrace(tracer)
     try:
         for o in case['ops']:
+            state['in_req'] = o in ('start', 'stop')
             try:
                 do(o)
             except Exception as e:   # noqa
                 raised.append((o, e))
                 break
+            # (a cycle injected after the request was posted may have run the whole machine already: then it is over, legitimately)
+            state['in_req'] = inj != 'cycle'    # (nothing is injected into the observation itself)
+            status_now = tuple(sm.status)
+            if o == 'start' and (sm.is_active or sm.next_task is not None) and not 300 <= int(status_now[0]) < 400:
+                not_busy.append(status_now)
     finally:
         sys.settrace(None)
     if position is None:
@@ -718,6 +729,10 @@ def module_injected(ctx, case, inj, position):
     if raised:
         o, e = raised[0]
         ctx.finding(f'module-inject:raises:{type(e).__name__}:{where}', sub, f'{o}: {e!r}; {inj} injected in {state["at"]}')
+        return state['n']
+    if not_busy:
+        # the start request returned (the command reply is sent now) with a status telling the run is over already
+        ctx.finding(f'module-inject:not-busy-after-start:{inj}:{where}', sub, f'status {not_busy[0]!r} after start_machine; {inj} injected in {state["at"]}')
         return state['n']
     # settle: the machine finishes (or keeps retrying); afterwards status and machine agree
     last = inj if inj in ('start', 'stop') else None
@@ -800,7 +815,7 @@ def run_shard(ctx, shard):
                 run_injected(ctx, PROGRAMS[pi], SCENARIOS[si], inj, pos)
     elif shard['part'] == 'module-inject':
         sc = dict(MODULE_SCENARIOS[shard['idx']], kind='module-inject')
-        for inj in ('stop', 'start'):
+        for inj in ('stop', 'start', 'cycle'):
             total = module_injected(ctx, sc, inj, None)
             for pos in range(total):
                 module_injected(ctx, sc, inj, pos)
@@ -817,7 +832,8 @@ def run_case(ctx, case):
     elif case['kind'] == 'inject':
         run_injected(ctx, case['prog'], case['ops'], case['inj'], case['position'])
     elif case['kind'] == 'module-inject':
-        if case.get('inj') in ('start', 'stop') and isinstance(case.get('position'), int) and all(o in ('start', 'stop', 'cycle') for o in case['ops']):
+        if case.get('inj') in ('start', 'stop', 'cycle') and isinstance(case.get('position'), int) and \
+                all(k in case for k in ('retries', 'chain', 'b', 'cleanup_cycles', 'first')) and all(o in ('start', 'stop', 'cycle') for o in case['ops']):
             module_injected(ctx, case, case['inj'], case['position'])
     else:
         module_history(ctx, case)
